@@ -19,7 +19,7 @@ import (
 )
 
 type c03Flight struct {
-	Kind    string `json:"kind"` // plain | upgrade | sse
+	Kind    string `json:"kind"` // plain | upgrade | sse | upgrade-late (the target's 101 comes DurMs after the request: while the drain is under way)
 	DurMs   int    `json:"dur_ms"`
 	Rollout bool   `json:"rollout"` // carries the rollout cookie (split is 100%)
 	Offer   bool   `json:"offer"`   // offers a protocol upgrade (Upgrade: h2c) that the target ignores
@@ -38,6 +38,7 @@ type c03Plan struct {
 	RolloutStopped bool  `json:"rollout_stopped"` // `rollout stop` is issued after the flights started: rollout targets stay installed (and busy)
 	Sick     []int       `json:"sick,omitempty"`  // targets of the drained set whose probes start failing right after the flights started (they are out of rotation, still busy, when the command runs)
 	TargetTimeoutMs int  `json:"target_timeout_ms,omitempty"` // the service's target timeout (bounds the wait for response HEADERS only); 0 = far beyond the scenario. Flights are streams or upgrades then: their headers come at once.
+	Meanwhile bool       `json:"meanwhile,omitempty"` // while the command drains, `list` is issued: it answers at once (it does not wait for the other command's drain)
 	Prior    []string    `json:"prior,omitempty"` // pause / stop / resume commands issued (idle service) before the scenario: the command under test is not the first of its kind
 }
 
@@ -67,6 +68,9 @@ func c03Gen(t *rapid.T) c03Plan {
 		}
 		f.DurMs = rapid.SampledFrom([]int{1, p.CmdAtMs, p.CmdAtMs + 1, deadline / 2, deadline - 1, deadline, deadline + 1, deadline * 3, 60000}).Draw(t, "dur")
 		f.DurMs = max(f.DurMs, 1)
+		if f.Kind == "upgrade" && p.DrainMs >= 50 && p.TargetTimeoutMs == 0 && rapid.IntRange(0, 2).Draw(t, "late-101") == 0 {
+			f.Kind, f.DurMs = "upgrade-late", p.CmdAtMs+p.DrainMs/2
+		}
 		f.Rollout = p.Rollout > 0 && rapid.IntRange(0, 2).Draw(t, "to-rollout") == 0
 		f.Offer = f.Kind == "plain" && rapid.IntRange(0, 3).Draw(t, "offer") == 0
 		p.Flights = append(p.Flights, f)
@@ -97,6 +101,7 @@ func c03Gen(t *rapid.T) c03Plan {
 			}
 		}
 	}
+	p.Meanwhile = rapid.IntRange(0, 2).Draw(t, "meanwhile") == 0
 	if rapid.IntRange(0, 3).Draw(t, "prior?") == 0 {
 		p.Prior = rapid.SampledFrom([][]string{{"pause", "resume"}, {"stop", "resume"}, {"pause", "stop", "resume"}, {"pause", "resume", "pause", "resume"}, {"stop", "pause", "resume"}}).Draw(t, "prior")
 	}
@@ -193,8 +198,12 @@ func c03RunMode(t *testing.T, p c03Plan, mode string) (res vfResult) {
 			o := &flightObs{closedAt: -1}
 			obs[i] = o
 			ctl := &vfCtl{ID: fmt.Sprintf("f%d", i), DurMs: f.DurMs}
-			if f.Kind == "upgrade" {
+			if f.Kind == "upgrade" || f.Kind == "upgrade-late" {
 				ctl.Upgrade = true
+				if f.Kind == "upgrade-late" {
+					ctl.UpDelayMs = f.DurMs
+					res.label("handshake-in-flight-when-draining-begins")
+				}
 				conn, err := w.net.DialFrom(context.Background(), c13ClientIP, "front:80")
 				if err != nil {
 					res.failf("harness", "dial: %v", err)
@@ -286,6 +295,20 @@ func c03RunMode(t *testing.T, p c03Plan, mode string) (res vfResult) {
 		case "stop":
 			cmd = w.goCmd(func() error { return vfStop(r, "svc", drain, "closed for now") })
 		}
+		if p.Meanwhile {
+			synctest.Wait() // the command has begun to drain (or is done)
+			if !cmd.finished() {
+				// `list` only reads: it is answered without virtual time passing, so a bounded wait in real time decides
+				// (a goroutine queued on a mutex the draining command holds would stall the bubble for good)
+				listed := make(chan struct{})
+				go func() { defer close(listed); vfList(r) }()
+				if !vfRealWait(listed, 5*time.Second) {
+					res.failf("blocked-behind-drain", "cmd=%s at %v drain-timeout=%v: `list`, issued while the command was draining, had not returned after 5 s of real time (no virtual time passes for a read)", p.Cmd, tc, drain)
+					return
+				}
+				res.label("list-answered-while-draining")
+			}
+		}
 		// late arrivals
 		type lateObs struct {
 			at     time.Duration
@@ -350,6 +373,12 @@ func c03RunMode(t *testing.T, p c03Plan, mode string) (res vfResult) {
 			if !drained(f.Rollout) || f.Kind == "upgrade" {
 				continue
 			}
+			if f.Kind == "upgrade-late" {
+				// in flight as a handshake when draining begins, an open tunnel from its 101 on: nothing ends it but the deadline
+				inflight = true
+				want = deadline
+				continue
+			}
 			end := t0 + vfMs(f.DurMs)
 			if end > tc {
 				inflight = true
@@ -392,6 +421,17 @@ func c03RunMode(t *testing.T, p c03Plan, mode string) (res vfResult) {
 			o := obs[i]
 			end := t0 + vfMs(f.DurMs)
 			fd := fmt.Sprintf("%s; flight %d kind=%s natural-end=%v rollout=%v", desc, i, f.Kind, end, f.Rollout)
+			if f.Kind == "upgrade-late" {
+				if !o.upOK {
+					res.failf("late-upgrade-refused", "%s: the handshake was in flight when draining began and the target's 101 came within the drain timeout, yet the client saw no 101", fd)
+					return
+				}
+				if drained(f.Rollout) && (o.closedAt < 0 || o.closedAt > ret) {
+					res.failf("upgrade-open-after-return", "%s: the connection upgraded while the drain was under way ended at %v (-1: never), the command returned at %v", fd, o.closedAt, ret)
+					return
+				}
+				continue
+			}
 			if f.Kind == "upgrade" {
 				if !o.upOK {
 					res.failf("harness", "%s: upgrade did not go through", fd)
@@ -537,7 +577,7 @@ func TestVF_C03(t *testing.T) {
 }
 
 func TestVF_C17_Drain(t *testing.T) {
-	vfCheck(t, vfProp[c03Plan]{id: "C17", gen: func(t *rapid.T) c03Plan {
+	vfCheck(t, vfProp[c03Plan]{id: "C17", stallIsViolation: true, gen: func(t *rapid.T) c03Plan {
 		p := c03Gen(t)
 		p.Stale = ""
 		return p
